@@ -33,8 +33,11 @@ REACTIONS = ["prompt", "late", "never", "close", "dpa_then_close", "handshake_du
 
 def shards(tier, seed):
     n = 12 if tier == "quick" else 16
-    return [{"name": f"s{i}", "kind": "sweep", "part": i, "parts": n, "n": 150 if tier == "quick" else 1500}
-            for i in range(n)]
+    out = [{"name": f"s{i}", "kind": "sweep", "part": i, "parts": n, "n": 150 if tier == "quick" else 1500}
+           for i in range(n)]
+    for i in range(2 if tier == "quick" else 8):
+        out.append({"name": f"freerun{i}", "kind": "freerun", "n": 12 if tier == "quick" else 60})
+    return out
 
 
 class Case:
@@ -372,7 +375,76 @@ class Run:
         return r
 
 
+def run_freerun(spec):
+    """Real thread scheduling (no lockstep gate) around one narrow window: requests the peer sent *before* its DPA
+    have been answered by the node - the answers are queued for the connection - when the DPA is processed.  They
+    are pending output and have to reach the peer before the connection is closed."""
+    from vf.simnet.world import World, REALM
+    from vf.simnet import msgs as M
+    run = Run()
+    rng = random.Random(h64("C18", spec["seed"], spec["name"]))
+    name = "peer1.verif.example"
+    for it in range(spec["n"]):
+        nreq = rng.choice([1, 2, 3, 5])
+        kind = rng.choice(["dwr", "foreign_realm", "mixed"])
+        w = World(dict(peers=[{"name": name}], apps=[{"tag": "a4", "id": 4, "peers": [name]}],
+                       node={"idle_timeout": 10 ** 6, "wakeup_interval": 1}))
+        h = w.h
+        spec_case = {"freerun": True, "nreq": nreq, "kind": kind}
+        try:
+            w.start()
+            sp = h.inbound(ip="10.1.0.1", port=50001)
+            h.settle()
+            sp.send(M.cer(name, REALM, auth=[4], hbh=1, e2e=1))
+            h.settle()
+            sp.drain()
+            th = threading.Thread(target=lambda: w.node.stop(wait_timeout=5), name="stop-caller")
+            with h.cv:
+                h.free_running = True
+                h.cv.notify_all()
+            th.start()
+            end = time.time() + 5
+            dpr = None
+            while time.time() < end and dpr is None:
+                sp.drain()
+                dpr = next((f for f in sp.frames if f.h.code == 282 and f.is_request), None)
+                time.sleep(0.0005)
+            if dpr is None:
+                run.cov["freerun_no_dpr"] = run.cov.get("freerun_no_dpr", 0) + 1
+                continue
+            blob, ids = b"", []
+            for k in range(nreq):
+                i2 = (700 + k, 800 + k)
+                ids.append(i2)
+                if kind == "dwr" or (kind == "mixed" and k % 2 == 0):
+                    blob += M.dwr(name, REALM, hbh=i2[0], e2e=i2[1])
+                else:
+                    blob += M.ccr(name, REALM, "elsewhere.example", app=4, hbh=i2[0], e2e=i2[1])
+            blob += M.dpa(name, REALM, hbh=dpr.h.hbh, e2e=dpr.h.e2e)
+            sp.send(blob)
+            th.join(15)
+            returned = not th.is_alive()
+            time.sleep(0.03)
+            sp.drain()
+            got = {(f.h.hbh, f.h.e2e) for f in sp.frames if not f.is_request}
+            missing = [x for x in ids if x not in got]
+            run.evals += 1
+            run.hashes.add(h64("freerun", spec["name"], it))
+            run.cov["freerun_cases"] = run.cov.get("freerun_cases", 0) + 1
+            run.cov["freerun_answers_seen"] = run.cov.get("freerun_answers_seen", 0) + len(ids) - len(missing)
+            if not returned:
+                run.witness("shutdown.stop_did_not_return", {**spec_case}, spec_case)
+            elif missing and sp.node_sock.closed:
+                run.witness("shutdown.pending_output_dropped_at_close.answers_queued_before_dpa",
+                            {**spec_case, "answers_missing": len(missing), "of": len(ids)}, spec_case)
+        finally:
+            w.teardown()
+    return run.result()
+
+
 def run_shard(spec):
+    if spec.get("kind") == "freerun":
+        return run_freerun(spec)
     run = Run()
     rng = random.Random(h64("C18", spec["seed"], spec["name"]))
     cases = []
@@ -405,6 +477,8 @@ def run_shard(spec):
 
 
 def replay(obj):
+    if obj.get("freerun"):
+        return run_freerun({"name": "replay", "seed": 0, "n": 24})
     run = Run()
     run.one([tuple(c) for c in obj["conns"]], obj["newcomer"], obj["reconnect_due"], obj["force"], obj["wait_timeout"],
             obj.get("stall_seed"))
